@@ -55,6 +55,7 @@ class Table:
 
     def __init__(self, shape: tuple, data: dict):
         self.shape, self.data = tuple(shape), data
+        self.base = None
 
     @staticmethod
     def full(shape, fn) -> "Table":
@@ -103,7 +104,9 @@ class Table:
         pos, shape = self.positions(idx)
         if shape == ():
             return self.data[pos[0]]
-        return Table(shape, dict(zip(itertools.product(*[range(n) for n in shape]), (self.data[p] for p in pos))))
+        out = Table(shape, dict(zip(itertools.product(*[range(n) for n in shape]), (self.data[p] for p in pos))))
+        out.base = self.base if self.base is not None else self  # numpy hands out a VIEW for basic indexing: a write into it is a write into the base
+        return out
 
     def set(self, idx, value, op=None) -> None:
         pos, shape = self.positions(idx)
@@ -176,14 +179,22 @@ def _dot(a, b):
 class PointSym:
     """a Point parameter: normalized_array is (name0, ..., 1), array is (w name0, ..., w) with the scale w of the representative"""
 
-    def __init__(self, name: str, dim: int):
-        self.name, self.dim = name, dim
+    def __init__(self, name: str, dim: int, at_infinity: bool = False, coords: list | None = None):
+        self.name, self.dim, self.at_infinity, self.coords = name, dim, at_infinity, coords
 
     def normalized(self) -> Table:
+        if self.coords is not None:
+            return Table((self.dim + 1,), {(i,): (self.coords[i] if i < self.dim else LP.const(1)) for i in range(self.dim + 1)})
+        if self.at_infinity:
+            return Table((self.dim + 1,), {(i,): (LP.sym(f"{self.name}{i}") if i < self.dim else LP.const(0)) for i in range(self.dim + 1)})
         return Table((self.dim + 1,), {(i,): (LP.sym(f"{self.name}{i}") if i < self.dim else LP.const(1)) for i in range(self.dim + 1)})
 
     def raw(self) -> Table:
+        if self.at_infinity:
+            return self.normalized()
         w = LP.sym(f"w_{self.name}")
+        if self.coords is not None:
+            return Table((self.dim + 1,), {(i,): (self.coords[i] * w if i < self.dim else w) for i in range(self.dim + 1)})
         return Table((self.dim + 1,), {(i,): (LP.sym(f"{self.name}{i}") * w if i < self.dim else w) for i in range(self.dim + 1)})
 
 
@@ -203,6 +214,127 @@ class RootsOf:
 
     def __init__(self, coeffs: list):
         self.coeffs = coeffs
+
+
+class AngleSym(SymObject):
+    """arctan2(y, x): cos = x / sqrt(x^2 + y^2), sin = y / sqrt(x^2 + y^2)"""
+
+    def __init__(self, y: LP, x: LP):
+        self.y, self.x = y, x
+
+
+class PointObj(SymObject):
+    """Point(...) built inside the interpreted code: homogeneous coordinates as a table"""
+
+    def __init__(self, table: "Table"):
+        self.array = table
+        self.normalized_array = table  # only points built with a trailing 1 (or copied from a normalised table) are created by the hook
+        self.dim = table.shape[0] - 1
+        self.shape = table.shape
+
+    def neg(self):
+        n = self.array.shape[0]
+        return PointObj(Table((n,), {(i,): (-self.array.data[(i,)] if i < n - 1 else self.array.data[(i,)]) for i in range(n)}))
+
+
+class TransObj(SymObject):
+    def __init__(self, table: "Table"):
+        self.array = table
+
+    def mul(self, other):
+        if isinstance(other, TransObj):
+            return TransObj(_dot(self.array, other.array))
+        raise Unknown("transformation applied to an object")
+
+
+class EpsObj(SymObject):
+    def __init__(self, n: int):
+        self.n = n
+
+
+class VecObj(SymObject):
+    def __init__(self, table: "Table"):
+        self.array = table
+
+
+class DiagramObj(SymObject):
+    """TensorDiagram((Tensor(v), eps), ...): every edge contracts v with the next index of the Levi-Civita tensor (what an edge contracts is decided
+    by E14; the entries of eps are the permutation signs)"""
+
+    def __init__(self, edges: list):
+        self.edges = edges
+
+    def calculate(self):
+        eps = next((b for a_, b in self.edges if isinstance(b, EpsObj)), None)
+        vecs = [a_.array for a_, b in self.edges if isinstance(a_, VecObj) and b is eps]
+        if eps is None or len(vecs) != len(self.edges) or any(v.shape != (eps.n,) for v in vecs):
+            raise Unknown("diagram is not vectors contracted with one Levi-Civita tensor")
+        n, k = eps.n, len(vecs)
+        if k > n or n > 5:
+            raise Unknown("more vectors than indices of the Levi-Civita tensor")
+
+        def sign(perm):
+            return -1 if sum(1 for i in range(len(perm)) for j in range(i + 1, len(perm)) if perm[i] > perm[j]) % 2 else 1
+        data = {}
+        for free in itertools.product(range(n), repeat=n - k):
+            total = LP()
+            for bound in itertools.product(range(n), repeat=k):
+                idx = bound + free
+                if len(set(idx)) != n:
+                    continue
+                term = LP.const(sign(idx))
+                for v, i in zip(vecs, bound):
+                    term = term * v.data[(i,)]
+                total = total + term
+            data[free] = total
+        return VecObj(Table((n,) * (n - k), data))
+
+
+def library_hooks(it: "Interp") -> dict:
+    """stand-ins for the library classes the constructors use"""
+    def tensor_hook(args, kwargs):
+        return VecObj(args[0]) if args and isinstance(args[0], Table) else Opaque("tensor")
+
+    def eps_hook(args, kwargs):
+        return EpsObj(args[0]) if args and isinstance(args[0], int) else Opaque("eps")
+
+    def diagram_hook(args, kwargs):
+        edges = [tuple(a_) for a_ in args if isinstance(a_, (list, tuple)) and len(a_) == 2]
+        return DiagramObj(edges) if len(edges) == len(args) and edges else Opaque("diagram")
+
+    def point_hook(args, kwargs):
+        if len(args) == 1 and isinstance(args[0], PointObj):
+            return PointObj(args[0].array)
+        if len(args) == 1 and isinstance(args[0], PointSym):
+            return PointObj(args[0].normalized())
+        if len(args) == 1 and isinstance(args[0], Table) and len(args[0].shape) == 1:
+            return PointObj(args[0])  # homogeneous coordinates handed over as one array
+        try:
+            coords = [it.lp(a_) for a_ in args]
+        except Unknown:
+            return Opaque("point")
+        coords.append(LP.const(1))
+        return PointObj(Table((len(coords),), {(i,): c for i, c in enumerate(coords)}))
+
+    def trafo_hook(args, kwargs):
+        return TransObj(args[0]) if args and isinstance(args[0], Table) and len(args[0].shape) == 2 else Opaque("transformation")
+
+    return {"Tensor": tensor_hook, "LeviCivitaTensor": eps_hook, "TensorDiagram": diagram_hook, "Point": point_hook, "Transformation": trafo_hook}
+
+
+def zero_mod(e: LP, rules: dict) -> bool:
+    """e == 0 modulo the relations atom**p = value: negative powers of the atoms are cleared first (the atoms are non-zero: norms, cosines)"""
+    for _ in range(4):
+        for atom in rules:
+            worst = 0
+            for mono in e.t:
+                for s_, ex in mono:
+                    if s_ == atom and ex < worst:
+                        worst = ex
+            if worst < 0:
+                e = e * LP.sym(atom).power(int(-worst))
+        e = e.rewrite(rules)
+    return e.is_zero()
 
 
 def _det_table(t: "Table") -> LP:
@@ -250,6 +382,7 @@ class Interp:
         self.quadric_ctors: set[str] = set()
         self.depth = 0
         self.trig = False  # read cos / sin / norm as atoms with their relations (rotation matrices)
+        self.heights: set[str] = set()  # atoms that stand for the height of a cone
         self.rules: dict = {}  # atom -> (power, value): atom**power rewrites to value (norms, cos^2 = 1 - sin^2)
         self.hooks: dict = {}  # function name -> callable(args, kwargs) used instead of interpreting the call
 
@@ -267,11 +400,17 @@ class Interp:
             return Opaque(f"name {e.id}")
         if isinstance(e, ast.UnaryOp) and isinstance(e.op, ast.USub):
             v = self.ev(e.operand, env)
+            if isinstance(v, SymObject) and hasattr(v, "neg"):
+                return v.neg()
             if isinstance(v, int) and not isinstance(v, bool):
                 return -v
             return _binop(lambda a, b: a * b, self.lp(v), LP.const(-1)) if not isinstance(v, Table) else Table(v.shape, {k: -x for k, x in v.data.items()})
         if isinstance(e, ast.BinOp):
             l, r = self.ev(e.left, env), self.ev(e.right, env)
+            if isinstance(l, SymObject) and isinstance(e.op, ast.Mult) and hasattr(l, "mul"):
+                return l.mul(r)
+            if isinstance(l, SymObject) or isinstance(r, SymObject):
+                raise Unknown("arithmetic on a library object")
             if isinstance(l, int) and isinstance(r, int) and not isinstance(l, bool) and not isinstance(r, bool) and isinstance(e.op, (ast.Add, ast.Sub, ast.Mult)):
                 return {ast.Add: l + r, ast.Sub: l - r, ast.Mult: l * r}[type(e.op)]
             if isinstance(e.op, ast.Pow):
@@ -413,6 +552,33 @@ class Interp:
         return self.lp(v)
 
     def call(self, e: ast.Call, env: dict):
+        """a call whose effect is not read may have written into the tables it was handed: they are no longer known"""
+        try:
+            out = self._call(e, env)
+        except (Unknown, NotPolynomial):
+            self.invalidate_args(e, env)
+            raise
+        if isinstance(out, Opaque):
+            self.invalidate_args(e, env)
+        return out
+
+    PURE = {"promote_types", "result_type", "isscalar", "isinf", "isnan", "isreal", "iscomplexobj", "shape", "ndim", "len", "type", "isinstance", "dtype",
+            "all", "any", "allclose", "isclose", "array_equal", "abs", "max", "min", "sum", "prod", "norm", "det", "sqrt", "real_if_close", "float", "int",
+            "maximum", "minimum", "asarray", "array", "dot", "matmul", "outer", "cross", "eigvalsh", "where", "dist", "angle", "Line", "Plane", "join", "meet"}
+
+    def invalidate_args(self, e: ast.Call, env: dict) -> None:
+        f = e.func
+        name = f.attr if isinstance(f, ast.Attribute) else f.id if isinstance(f, ast.Name) else ""
+        if name in self.PURE:
+            return
+        names = [a.id for a in list(e.args) + [k.value for k in e.keywords] if isinstance(a, ast.Name)]
+        if isinstance(f, ast.Attribute) and isinstance(f.value, ast.Name) and f.value.id not in ("np", "numpy", "math"):
+            names.append(f.value.id)  # a method of the buffer itself (m.fill(0), m.sort())
+        for n_ in names:
+            if isinstance(env.get(n_), Table):
+                env[n_] = Opaque(f"handed to `{name}`, whose effect on it is not read")
+
+    def _call(self, e: ast.Call, env: dict):
         f = e.func
         name = f.attr if isinstance(f, ast.Attribute) else f.id if isinstance(f, ast.Name) else ""
         is_np = isinstance(f, ast.Attribute) and isinstance(f.value, ast.Name) and f.value.id in ("np", "numpy")
@@ -429,6 +595,8 @@ class Interp:
                 try:
                     if isinstance(a_, ast.Starred):
                         v_ = self.ev(a_.value, env)
+                        if isinstance(v_, Table) and len(v_.shape) == 1:
+                            v_ = [v_.data[(i_,)] for i_ in range(v_.shape[0])]
                         args_ += list(v_) if isinstance(v_, (list, tuple)) else [Opaque("star argument")]
                     else:
                         args_.append(self.ev(a_, env))
@@ -443,7 +611,12 @@ class Interp:
                         kw_[k_.arg] = Opaque(str(ex))
             return self.hooks[name](args_, kw_)
         if name in ("cos", "sin") and len(e.args) == 1 and self.trig:
-            arg = self.lp(self.ev(e.args[0], env))
+            arg0 = self.ev(e.args[0], env)
+            if isinstance(arg0, AngleSym):
+                inner = (arg0.x * arg0.x + arg0.y * arg0.y).rewrite(self.rules)
+                hyp = self.sqrt_atom(inner)
+                return (arg0.x if name == "cos" else arg0.y) * hyp.inverse()
+            arg = self.lp(arg0)
             sign = 1
             lead = sorted(arg.t.items())[0][1] if arg.t else 1
             if lead < 0:
@@ -457,9 +630,25 @@ class Interp:
                 inner = LP()
                 for x in v.data.values():
                     inner = inner + x * x
-                key = f"sqrt({inner.show()})"
-                self.rules[key] = (2, inner)
-                return LP.sym(key)
+                return self.sqrt_atom(inner.rewrite(self.rules))
+        if name == "arctan2" and len(e.args) == 2 and self.trig:
+            return AngleSym(self.lp(self.ev(e.args[0], env)), self.lp(self.ev(e.args[1], env)))
+        if name in ("arcsin", "arccos") and len(e.args) == 1 and self.trig:
+            x = self.lp(self.ev(e.args[0], env))
+            other = self.sqrt_atom((LP.const(1) - x * x).rewrite(self.rules))  # the non-negative one of the two: arcsin has cos >= 0, arccos has sin >= 0
+            return AngleSym(x, other) if name == "arcsin" else AngleSym(other, x)
+        if name in ("min", "minimum", "max", "maximum", "clip") and self.trig and len(e.args) >= 2:
+            vals = [self.ev(a_, env) for a_ in e.args]
+            lps = [v_ for v_ in vals if isinstance(v_, LP) and not (len(v_.t) == 1 and () in v_.t)]
+            consts = [v_ for v_ in vals if isinstance(v_, int) or (isinstance(v_, LP) and len(v_.t) == 1 and () in v_.t)]
+            if len(lps) == 1 and len(consts) == len(vals) - 1:
+                return lps[0]  # a clamp of a computed ratio to its mathematical range (guard against rounding)
+        if name == "isscalar" and len(e.args) == 1:
+            v = self.ev(e.args[0], env)
+            if isinstance(v, (int, LP)) and not isinstance(v, bool):
+                return True
+            if isinstance(v, (Table, list)):
+                return False
         if is_np or isinstance(f, ast.Name):
             if name in ("eye", "identity") and e.args:
                 n = self.ev(e.args[0], env)
@@ -474,7 +663,7 @@ class Interp:
             if name in ("array", "asarray") and e.args:
                 v = self.ev(e.args[0], env)
                 if isinstance(v, Table):
-                    return v.copy()
+                    return v if name == "asarray" else v.copy()
                 if isinstance(v, list) and v and all(isinstance(x, list) and not all(isinstance(y, int) for y in x) for x in v):
                     rows = [[self.lp(y) for y in x] for x in v]
                     if len({len(r_) for r_ in rows}) == 1:
@@ -567,21 +756,78 @@ class Interp:
         if name == "dist" and len(e.args) == 2:
             a, b = self.ev(e.args[0], env), self.ev(e.args[1], env)
             if isinstance(a, PointSym) and isinstance(b, PointSym):
-                return LP.sym("h")  # the distance of the two points, kept as a symbol
+                if a.at_infinity or b.at_infinity:
+                    self.heights.add("h")
+                    return LP.sym("h")  # infinite: only its being infinite is used
+                inner = LP()
+                for x_, y_ in zip(list(a.normalized().data.values())[:-1], list(b.normalized().data.values())[:-1]):
+                    inner = inner + (x_ - y_) * (x_ - y_)
+                atom = self.sqrt_atom(inner)
+                self.heights.add(next(iter(atom.t))[0][0])
+                return atom  # the distance of the two points: an atom h with h^2 = |a - b|^2
         return Opaque(f"call {name}")
+
+    def sqrt_atom(self, inner: LP) -> LP:
+        """sqrt(inner), the principal (non-negative) root, as an atom with the relation atom^2 = inner"""
+        if len(inner.t) == 1 and () in inner.t:
+            c = inner.t[()]
+            for k in range(0, 13):
+                if Fraction(k * k) == c:
+                    return LP.const(k)
+        key = f"sqrt({inner.show()})"
+        if key not in self.rules:
+            self.rules[key] = (2, inner)
+            self.resolve_all()
+        return LP.sym(key)
+
+    def resolve_all(self) -> None:
+        for k in [k for k, (p_, _v) in self.rules.items() if p_ == 2 and k.startswith("sqrt(")]:
+            self.resolve_atom(k)
+
+    def resolve_atom(self, key: str) -> None:
+        """a root whose radicand is the square of a quotient of OTHER non-negative atoms is that quotient (sqrt(1 - z^2/D^2) = N/D when D^2 - z^2 = N^2):
+        both sides are non-negative and their squares agree. A radicand that is the square of a SIGNED quantity (z^2/D^2) is left alone: the root is |z|/D."""
+        w = self.rules[key][1]
+        others = [a for a in self.rules if a != key and a.startswith("sqrt(") and self.rules[a][0] == 2]
+        cands = [LP.const(1)] + [LP.sym(a) for a in others]
+        for num in cands:
+            for den in cands:
+                if num is den:
+                    continue
+                m = num * den.inverse()
+                rules = {a: self.rules[a] for a in others}
+                if zero_mod(w - m * m, rules):
+                    self.rules[key] = (1, m)
+                    return
 
     def call_helper(self, helper: FunctionInfo, e: ast.Call, env: dict):
         helper = self.prog.body_of(helper)
         a = helper.node.args
         names = [x.arg for x in a.args]
         env2: dict = {}
+        extra: list = []
         for i, arg in enumerate(e.args):
-            if isinstance(arg, ast.Starred) or i >= len(names):
-                return Opaque("star arguments")
+            if isinstance(arg, ast.Starred):
+                try:
+                    v_ = self.ev(arg.value, env)
+                except (Unknown, NotPolynomial):
+                    return Opaque("star arguments")
+                if not isinstance(v_, (list, tuple)) or i < len(names):
+                    return Opaque("star arguments")
+                extra += list(v_)
+                continue
             try:
-                env2[names[i]] = self.ev(arg, env)
+                val = self.ev(arg, env)
             except (Unknown, NotPolynomial) as ex:
-                env2[names[i]] = Opaque(str(ex))
+                val = Opaque(str(ex))
+            if i < len(names):
+                env2[names[i]] = val
+            else:
+                extra.append(val)
+        if extra and a.vararg is None:
+            return Opaque("too many arguments")
+        if a.vararg is not None:
+            env2[a.vararg.arg] = extra
         for k in e.keywords:
             if k.arg is None:
                 return Opaque("star arguments")
@@ -606,6 +852,7 @@ class Interp:
         sub = Interp(self.prog, self.cls, self.assume)
         sub.depth = self.depth + 1
         sub.infinite, sub.quadric_ctors = self.infinite, self.quadric_ctors
+        sub.trig, sub.rules, sub.hooks, sub.heights = self.trig, self.rules, self.hooks, self.heights
         try:
             sub.block(helper.node.body, env2)
         except _Done as d:
@@ -624,18 +871,22 @@ class Interp:
         if isinstance(t, ast.BoolOp):
             vals = [self.test(v, env) for v in t.values]
             return all(vals) if isinstance(t.op, ast.And) else any(vals)
-        if isinstance(t, (ast.Name, ast.Attribute)) or (isinstance(t, ast.Compare) and "rotate" not in self.assume):
-            v = self.ev(t, env)
+        is_isinf = isinstance(t, ast.Call) and (t.func.attr if isinstance(t.func, ast.Attribute) else getattr(t.func, "id", "")) == "isinf"
+        if isinstance(t, (ast.Name, ast.Attribute, ast.Compare)) or (isinstance(t, ast.Call) and not is_isinf):
+            try:
+                v = self.ev(t, env)
+            except (Unknown, NotPolynomial):
+                v = None
             if isinstance(v, bool):
                 return v
         if isinstance(t, ast.Call) and (t.func.attr if isinstance(t.func, ast.Attribute) else getattr(t.func, "id", "")) == "isinf" and len(t.args) == 1:
             v = self.ev(t.args[0], env)
             if isinstance(v, LP) and len(v.t) == 1:
                 (k, _c), = v.t.items()
-                hs = [(s_, e_) for s_, e_ in k if s_ == "h"]
+                hs = [(s_, e_) for s_, e_ in k if s_ in self.heights]
                 if len(k) == 1 and hs and hs[0][1] == 1 and "h_infinite" in self.assume:
                     if self.assume["h_infinite"]:
-                        self.infinite.add("h")
+                        self.infinite.add(hs[0][0])
                     return self.assume["h_infinite"]
                 if hs and hs[0][1] < 0:
                     return False  # infinite only for height 0: a degenerate cone, not the case under analysis
@@ -663,6 +914,11 @@ class Interp:
                         and isinstance(c.func.value.func, ast.Name) and c.func.value.func.id == "super"):
                     self.super_init(c, env)
                     return
+                # a call for its effect (a helper that fills the buffer in place): interpreted; what is not read invalidates the tables it was handed
+                try:
+                    self.ev(c, env)
+                except (Unknown, NotPolynomial):
+                    pass
             return
         if isinstance(st, (ast.Import, ast.ImportFrom, ast.Pass)):
             return
@@ -681,64 +937,99 @@ class Interp:
             try:
                 t = self.test(st.test, env)
             except Unknown:
-                # both arms: names assigned in either become opaque
-                for x in ast.walk(st):
-                    if isinstance(x, ast.Name) and isinstance(x.ctx, ast.Store):
-                        env[x.id] = Opaque("assigned under an undecided test")
-                    if isinstance(x, (ast.Subscript,)) and isinstance(x.ctx, ast.Store) and isinstance(x.value, ast.Name):
-                        env[x.value.id] = Opaque("written under an undecided test")
+                # both arms: whatever either may write is no longer known
+                self.forget_written(st, env, "written under an undecided test")
                 return
             self.block(st.body if t else st.orelse, env)
             return
-        if isinstance(st, ast.Assign) and len(st.targets) == 1:
-            t = st.targets[0]
+        if isinstance(st, ast.Assign):
             try:
                 v = self.ev(st.value, env)
             except (Unknown, NotPolynomial) as ex:
                 v = Opaque(str(ex))
-            if isinstance(t, ast.Name):
-                env[t.id] = v
-                return
-            if isinstance(t, ast.Tuple) and all(isinstance(x, ast.Name) for x in t.elts):
-                if isinstance(v, Table) and len(v.shape) >= 1 and v.shape[0] == len(t.elts):
-                    v = [v.get(i) for i in range(v.shape[0])]
-                vals = v if isinstance(v, (list, tuple)) and len(v) == len(t.elts) else [Opaque("unpacking")] * len(t.elts)
-                for x, y in zip(t.elts, vals):
-                    env[x.id] = y
-                return
-            if isinstance(t, ast.Subscript) and isinstance(t.value, ast.Name):
-                buf = env.get(t.value.id)
-                if isinstance(buf, Table):
-                    try:
-                        if isinstance(v, Opaque):
-                            raise Unknown(v.why)
-                        buf.set(self.index(t.slice, env), self.num(v))
-                    except (Unknown, NotPolynomial) as ex:
-                        env[t.value.id] = Opaque(f"item assignment not read: {ex}")
-                return
+            for t in st.targets:
+                self.assign(t, v, env)
             return
         if isinstance(st, ast.AugAssign):
             ops = {ast.Add: lambda a, b: a + b, ast.Sub: lambda a, b: a - b, ast.Mult: lambda a, b: a * b, ast.Div: _div}
             if type(st.op) not in ops:
+                self.forget_written(st, env, "augmented assignment that is not read")
                 return
             try:
                 v = self.num(self.ev(st.value, env))
                 if isinstance(st.target, ast.Name):
-                    env[st.target.id] = _binop(ops[type(st.op)], self.num(env.get(st.target.id, Opaque())), v)
+                    cur0 = env.get(st.target.id, Opaque())
+                    res = _binop(ops[type(st.op)], self.num(cur0), v)
+                    if isinstance(cur0, Table) and isinstance(res, Table) and res.shape == cur0.shape:
+                        cur0.data = res.data  # in place: every alias of the array sees it
+                        if cur0.base is not None:
+                            self.invalidate_object(cur0.base, env, "written through a view")
+                    else:
+                        env[st.target.id] = res
                 elif isinstance(st.target, ast.Subscript) and isinstance(st.target.value, ast.Name) and isinstance(env.get(st.target.value.id), Table):
                     buf = env[st.target.value.id]
+                    if buf.base is not None:
+                        self.invalidate_object(buf.base, env, "written through a view")
                     idx = self.index(st.target.slice, env)
                     cur = buf.get(idx)
                     buf.set(idx, _binop(ops[type(st.op)], cur, v))
+                else:
+                    self.forget_written(st, env, "augmented assignment through a target that is not read")
             except (Unknown, NotPolynomial) as ex:
                 name = st.target.id if isinstance(st.target, ast.Name) else st.target.value.id if isinstance(st.target, ast.Subscript) and isinstance(st.target.value, ast.Name) else None
                 if name:
                     env[name] = Opaque(str(ex))
             return
-        # loops, with, try: names they bind are opaque
+        # loops, with, try, del ...: whatever they may write is no longer known
+        self.forget_written(st, env, "written in a statement outside the vocabulary")
+
+    def assign(self, t: ast.expr, v, env: dict) -> None:
+        if isinstance(t, ast.Name):
+            env[t.id] = v
+            return
+        if isinstance(t, (ast.Tuple, ast.List)):
+            if isinstance(v, Table) and len(v.shape) >= 1 and v.shape[0] == len(t.elts):
+                v = [v.get(i) for i in range(v.shape[0])]
+            vals = v if isinstance(v, (list, tuple)) and len(v) == len(t.elts) else [Opaque("unpacking")] * len(t.elts)
+            for x, y in zip(t.elts, vals):
+                self.assign(x, y, env)
+            return
+        if isinstance(t, ast.Subscript) and isinstance(t.value, ast.Name):
+            buf = env.get(t.value.id)
+            if isinstance(buf, Table) and buf.base is not None:
+                self.invalidate_object(buf.base, env, "written through a view")
+            if isinstance(buf, Table):
+                try:
+                    if isinstance(v, Opaque):
+                        raise Unknown(v.why)
+                    buf.set(self.index(t.slice, env), self.num(v))
+                except (Unknown, NotPolynomial) as ex:
+                    env[t.value.id] = Opaque(f"item assignment not read: {ex}")
+            return
+        # any other target (attribute of a table, nested subscripts): the tables it mentions are no longer known
+        for x in ast.walk(t):
+            if isinstance(x, ast.Name) and isinstance(env.get(x.id), Table):
+                env[x.id] = Opaque("assignment through a target that is not read")
+
+    @staticmethod
+    def invalidate_object(obj, env: dict, why: str) -> None:
+        for k_, v_ in list(env.items()):
+            if v_ is obj:
+                env[k_] = Opaque(why)
+
+    def forget_written(self, st: ast.AST, env: dict, why: str) -> None:
+        """everything a statement that is not interpreted may write: names it binds, buffers it indexes on the left, tables it hands to calls"""
         for x in ast.walk(st):
             if isinstance(x, ast.Name) and isinstance(x.ctx, ast.Store):
-                env[x.id] = Opaque("bound in a statement outside the vocabulary")
+                env[x.id] = Opaque(why)
+            elif isinstance(x, (ast.Subscript, ast.Attribute)) and isinstance(x.ctx, ast.Store):
+                for y in ast.walk(x):
+                    if isinstance(y, ast.Name) and isinstance(env.get(y.id), Table):
+                        if env[y.id].base is not None:
+                            self.invalidate_object(env[y.id].base, env, why)
+                        env[y.id] = Opaque(why)
+            elif isinstance(x, ast.Call):
+                self.invalidate_args(x, env)
 
     def super_init(self, c: ast.Call, env: dict) -> None:
         args = []
@@ -787,6 +1078,8 @@ class Interp:
 def run_ctor(prog: Program, cls: ClassInfo, env: dict, assume: dict[str, bool]):
     """the matrix handed to QuadricTensor.__init__ (a Table or Opaque), and the interpreter (for the infinite symbols of the path)"""
     it = Interp(prog, cls, assume)
+    it.trig = True
+    it.hooks = library_hooks(it)
     fn = prog.lookup(cls, "__init__")
     try:
         it.block(fn.node.body, env)
@@ -811,6 +1104,46 @@ def limit_infinite(t: Table, symbols: set[str]) -> Table:
             terms[mono] = c
         out[k] = LP(terms)
     return Table(t.shape, out)
+
+
+def proportional_mod(got: Table, want: Table, rules: dict) -> tuple[bool, str]:
+    """got = lambda * want entry by entry, modulo the relations of the atoms (norms, distances)"""
+    if got.shape != want.shape:
+        return False, f"shape {got.shape}, expected {want.shape}"
+    pivot = next((k for k in sorted(want.data) if not want.data[k].is_zero()), None)
+    if pivot is None or zero_mod(got.data[pivot], rules):
+        return False, f"entry {pivot} vanishes"
+    for k in sorted(want.data):
+        if k[0] > k[1] and (k[1], k[0]) in want.data and (want.data[k] - want.data[(k[1], k[0])]).is_zero() and (got.data[k] - got.data[(k[1], k[0])]).is_zero():
+            continue  # symmetric pair already compared
+        if not zero_mod(got.data[k] * want.data[pivot] - want.data[k] * got.data[pivot], rules):
+            return False, f"entry {k} is not in the ratio of the locus to entry {pivot}"
+    return True, ""
+
+
+def general_cone_matrix(v: list, d: list, r: LP) -> Table:
+    """(x - v)^T (|d|^4 I - (|d|^2 + r^2) d d^T) (x - v) = 0: the double cone with apex v, axis direction d and opening r / |d|"""
+    dd = LP()
+    for x in d:
+        dd = dd + x * x
+    q = [[(dd * dd if i == j else LP()) - (dd + r * r) * d[i] * d[j] for j in range(3)] for i in range(3)]
+    return _bordered(q, v, LP())
+
+
+def general_cylinder_matrix(b: list, e: list, r: LP) -> Table:
+    """(x - b)^T (|e|^2 I - e e^T) (x - b) = r^2 |e|^2: the cylinder of radius r about the line through b with direction e"""
+    ee = LP()
+    for x in e:
+        ee = ee + x * x
+    q = [[(ee if i == j else LP()) - e[i] * e[j] for j in range(3)] for i in range(3)]
+    return _bordered(q, b, r * r * ee)
+
+
+def _bordered(q: list, p: list, offset: LP) -> Table:
+    qp = [sum((q[i][j] * p[j] for j in range(3)), LP()) for i in range(3)]
+    corner = sum((p[i] * qp[i] for i in range(3)), LP()) - offset
+    rows = [[q[i][j] for j in range(3)] + [-qp[i]] for i in range(3)] + [[-qp[j] for j in range(3)] + [corner]]
+    return Table((4, 4), {(i, j): rows[i][j] for i in range(4) for j in range(4)})
 
 
 def proportional(got: Table, want: Table) -> tuple[bool, str]:
@@ -892,11 +1225,23 @@ def rule_quadrics(run: Run, prog: Program) -> int:
                 cases.append((cls, fn, "Ellipse", env, {}, ellipse_matrix(_sym("c0"), _sym("c1"), h, v), None))
             elif name == "Cone" and len(params) >= 3:
                 env = {params[0]: PointSym("v", 3), params[1]: PointSym("b", 3), params[2]: r}
-                c = r * r * _sym("h").power(-2)
+                vs, bs = [_sym(f"v{i}") for i in range(3)], [_sym(f"b{i}") for i in range(3)]
+                hh = LP()
+                for x_, y_ in zip(vs, bs):
+                    hh = hh + (x_ - y_) * (x_ - y_)
+                hatom = LP.sym(f"sqrt({hh.show()})")
+                c = r * r * hatom.power(-2)
                 cases.append((cls, fn, "Cone with the base centre above the vertex (finite height)", dict(env), {"h_infinite": False, "rotate": False},
-                              cone_matrix(_sym("v0"), _sym("v1"), _sym("v2"), c), None))
+                              cone_matrix(vs[0], vs[1], vs[2], c), None))
                 cases.append((cls, fn, "Cone with the vertex at infinity on the z-axis (cylinder)", dict(env), {"h_infinite": True, "rotate": False},
-                              cylinder_matrix(_sym("b0"), _sym("b1"), r), "h"))
+                              cylinder_matrix(bs[0], bs[1], r), "h"))
+                ds = [_sym(f"d{i}") for i in range(3)]  # the base centre is written as vertex + d: the polynomials stay small
+                env_g = {params[0]: PointSym("v", 3), params[1]: PointSym("b", 3, coords=[x_ + y_ for x_, y_ in zip(vs, ds)]), params[2]: r}
+                cases.append((cls, fn, "Cone with a general axis direction (finite height)", env_g, {"h_infinite": False, "rotate": True},
+                              general_cone_matrix(vs, ds, r), None))
+                env_c = {params[0]: PointSym("e", 3, at_infinity=True), params[1]: PointSym("b", 3), params[2]: r}
+                cases.append((cls, fn, "Cone with the vertex at infinity in a general direction (cylinder)", env_c, {"h_infinite": True, "rotate": True},
+                              general_cylinder_matrix(bs, [_sym(f"e{i}") for i in range(3)], r), "h"))
     for cls, fn, label, env, assume, want, _inf in cases:
         n += 1
         loc = f"{fn.module.rel}:{fn.node.lineno}"
@@ -908,9 +1253,10 @@ def rule_quadrics(run: Run, prog: Program) -> int:
             if not isinstance(got, Table):
                 run.add("E19", f"{cls.name}.__init__", label, UNDECIDED, "the matrix is not an array built in the constructor", loc)
                 continue
+            it.resolve_all()
             if it.infinite:
                 got = limit_infinite(got, it.infinite)
-            ok, why = proportional(got, want)
+            ok, why = proportional_mod(got, want, it.rules) if it.rules else proportional(got, want)
         except (Unknown, NotPolynomial, RecursionError) as ex:
             run.add("E19", f"{cls.name}.__init__", label, UNDECIDED, f"not read: {str(ex)[:120]}", loc)
             continue
